@@ -163,11 +163,14 @@ def run(ctx):
             continue
         conds.append(xh.Cond(f"NestedReuseTOML independent of the spelling of the root ({sp!r} vs absolute), nested directory names incl. ones sorting before '.'", "C04.py", "_spell", {"r": r}, timeout=tmo, twin="_spell_reach"))
 
+    conds.append(xh.Cond("lint-file: the files examined do not depend on how the root and the named files are spelled", "C03.py", "_subset", {}, timeout=tmo, twin="_subset_reach"))
     # serial run = one Project for the whole walk, pool = a fresh one per chunk: a look-up must not depend on earlier ones
     for l0 in (2, 3, 4) if tier == "quick" else range(1, 13):
         conds.append(xh.Cond(f"a look-up does not depend on the look-ups the same process did before (root shape #{l0}; files in the same and in another directory)", "C04.py", "_twice", {"levels": [l0, None, None], "carve": []}, timeout=tmo, twin="_twice_reach"))
 
     def confirm(c, ex):
+        if c.func == "_subset":
+            return f"subset-spelling:{ex['root']}:{ex['named_files']}", f"cwd {ex['cwd']}, root {ex['root']!r}, named files {ex['named_files']}: examined {ex['examined']}, expected {ex['expected']}", {"harness": "C03.py::_subset", "explain": ex}
         if c.func == "_twice":
             return f"history:{ex['levels']}:{ex['own_first']}:{ex['own_second']}", f"levels {ex['levels']}: after looking up a/b/f.py ({ex['own_first']}), a/b/g.py gives {ex['second']} (expected {ex['second_expected']}), c/h.py gives {ex['third(c/h.py)']} (expected {ex['third_expected']}), a/b/f.py again {ex['first_again']} (first time {ex['first']})", {"harness": "C04.py::_twice", "explain": ex}
         if c.func == "_spell":
@@ -190,7 +193,7 @@ def run(ctx):
     }
     ctx.outside = [
         "real process scheduling (mp.Pool), pickling and the per-worker dep5 re-parse",
-        "real readdir order and the current working directory (OS level); root spelling is covered for the REUSE.toml hierarchy only",
+        "real readdir order and the current working directory (OS level); root spelling is covered for the REUSE.toml hierarchy and for the lint-file subset walk (path algebra without symlinks)",
     ]
     ctx.assumptions = ["a set-assembled pattern can only vary by the order of its groups"]
     return {"level": "model_checking", "exhaustive": False, "trusted_base": ["z3 regex solver", "vf/re2z3.py", "CrossHair 0.0.110"]}
